@@ -29,6 +29,7 @@ package auth
 //@ func auth.PermissionedProxy
 //@   safety
 //@   may_panic
+//@   loop 1 invariant field-index: f >= 0 [C19]
 //@   at call reflect.MakeFunc: assert wrapper-only-for-validated-tag: ok && requiredPerm != "" [C19]
 
 //@ func auth.PermissionedProxy$1
@@ -42,6 +43,8 @@ package auth
 //@   at call (reflect.Value).Call: assert impl-only-with-perm: permOK [C19]
 //@   at call (reflect.Value).Call: assert calls-the-wrapped-method: $0 == fn && $1 == args [C19]
 //@   ensures denied-means-not-invoked: !permOK ==> calls(Call) == 0 && calls(Errorf) == 1 [C19]
+//@   at call reflect.Zero: assert zero-value-of-the-value-result: $0 == OutT(field.Type, 0) && NumOut(field.Type) == 2 [C19]
+//@   ensures denied-result-has-the-methods-shape: !permOK ==> len(result) == ite(NumOut(field.Type) == 2, 2, 1) [C19]
 //@   ensures allowed-means-invoked-once: permOK ==> calls(Call) == 1 [C19]
 
 //@ func (*auth.Handler).ServeHTTP
